@@ -35,6 +35,15 @@ impl Conn {
 			Conn::Unix(s) => s.write_all(b),
 		};
 	}
+	/// closes with a TCP reset instead of an orderly FIN (no effect on unix sockets, which are just closed)
+	fn reset(self) {
+		if let Conn::Tcp(s) = &self {
+			use std::os::unix::io::AsRawFd;
+			let l = libc::linger { l_onoff: 1, l_linger: 0 };
+			unsafe { libc::setsockopt(s.as_raw_fd(), libc::SOL_SOCKET, libc::SO_LINGER, &l as *const _ as *const libc::c_void, std::mem::size_of::<libc::linger>() as u32) };
+		}
+		drop(self);
+	}
 	fn read_some(&mut self) {
 		let mut buf = [0u8; 4096];
 		match self {
@@ -96,6 +105,9 @@ fn behave(b: &str, t: &Target, stalled: &mut Vec<Conn>) {
 	match b {
 		"connect-close" => {
 			let _ = Conn::open(t);
+			if let Some(c) = Conn::open(t) {
+				c.reset();
+			}
 		}
 		"garbage" => {
 			if let Some(mut c) = Conn::open(t) {
@@ -117,9 +129,19 @@ fn behave(b: &str, t: &Target, stalled: &mut Vec<Conn>) {
 			let _ = tlsclient::handshake(t, "example.org", &["h2".to_string(), "http/1.1".to_string()], Duration::from_secs(5));
 		}
 		"abandon-after-hello" => {
+			// orderly close after reading the server's flight, then a reset with the flight unread
 			if let Some(mut c) = Conn::open(t) {
 				c.send(&client_hello("example.org"));
 				c.read_some();
+			}
+			if let Some(mut c) = Conn::open(t) {
+				c.send(&client_hello("example.org"));
+				std::thread::sleep(Duration::from_millis(30));
+				c.reset();
+			}
+			if let Some(mut c) = Conn::open(t) {
+				c.send(&client_hello("example.org"));
+				c.reset();
 			}
 		}
 		"50-stalled" => {
